@@ -60,6 +60,7 @@ var c34Tweaks []func(shard int) func(o *node.Options)
 var c34EnvOf func(shard int) *c34Env // nil = every shard runs the pow-era workload
 var c34Boot *node.Boot               // what node.Bootstrap built on this shard (one node per process)
 var c34RejNotes []string
+var c34AfterInvariants func(c *kit.Ctx, kind, outcome string)
 
 // c34Resources (c34_sources.go) lists the unique resources a transaction claims,
 // derived from its payload by the harness's own rules ("kind=value").
@@ -223,6 +224,7 @@ func init() {
 		Require: []string{"steps", "invariant_checks", "submit_accepted", "submit_rejected_conflict", "blocks_with_pool_txs", "blocks_with_conflicting_txs", "removals", "capacity_rejections", "reorgs", "snapshots", "nonempty_pool_checks",
 			"shards_env:voting/dpos-era", "shards_env:committee/dpos-era", "shards_env:dposv2/dposv2-era", "blocks_with_resource_conflicting_txs",
 			"source_accepted:chain-spend", "source_accepted:producers", "source_accepted:cr-candidates", "source_accepted:proposals", "source_accepted:claim-node", "source_accepted:stake",
+			"store_fault_submissions", "store_fault_then_resubmitted", "invariants_checked_after_store_fault", "invariants_checked_after_store_fault_resubmission", "small_cross_transfers_saved",
 			"pool_proposals_dropped_by_recheck", "pool_budget_proposals_dropped_by_recheck", "budget_total_checked_after_recheck_drop", "pool_proposals_kept_across_block", "pool_proposals_mined"},
 		Post: func(a *kit.Agg) {
 			n := 0
@@ -1036,6 +1038,9 @@ func runC34(c *kit.Ctx) {
 		c.Inc("step:" + kind)
 		c.Case(fmt.Sprintf("%d:%d:%s:%s", c.Shard, i, kind, outcome), nonTrivial)
 		c34CheckInvariants(c, nd, fmt.Sprintf("step %d (%s)", i, kind))
+		if c34AfterInvariants != nil {
+			c34AfterInvariants(c, kind, outcome) // fault families count the checks that followed their faults
+		}
 		if i < 3 && c.Shard == 0 {
 			c.Sample(map[string]interface{}{"step": i, "kind": kind, "outcome": outcome, "pool_txs": nd.TxPool.GetTransactionCount(), "height": nd.Height()})
 		}
